@@ -32,9 +32,17 @@ def rescale_to_boundary(rng, J, ne):
     return [[x * sc for x in r] for r in J]
 
 
-def well_conditioned(J, name):
-    """the quantifiers of the pinv/eigh/solver based aggregators: unambiguous numerical rank"""
+def well_conditioned(J, name, p=None):
+    """the quantifiers of the pinv/eigh/solver based aggregators: unambiguous numerical rank, and
+    not on (or within float resolution of) a point where the aggregator is discontinuous"""
     import numpy as np
+    if name == "CAGrad":
+        # at stationarity (0 in the hull of the rows) g_w ~ 0: the branch |g_w| >= norm_eps and the
+        # direction g_w/|g_w| are decided by solver residuals
+        s = A.sigma_max(J)
+        if s == 0:
+            return True
+        return A.minnorm_exact(A.gram(J)) / (s * s) >= F(1, 10 ** 6)
     if name not in ("IMTLG", "ConFIG", "AlignedMTL"):
         return True
     mx = A.maxabs(J)
@@ -48,6 +56,24 @@ def well_conditioned(J, name):
     sv = np.linalg.svd(a, compute_uv=False)
     if sv[0] == 0:
         return True
+    if name == "ConFIG":
+        # best_direction = pinv(units) @ weights; the code branches on its norm being EXACTLY 0
+        w = np.array([float(x) for x in ((p or {}).get("pref") or [1] * len(J))])
+        if len(w) == len(J):
+            best = np.linalg.pinv(a) @ w
+            if np.linalg.norm(best) < 1e-6 * np.linalg.norm(w):
+                return False
+    if name == "IMTLG":
+        # weights = v / sum(v) has a pole at sum(v) = 0: inputs on (or within float resolution of)
+        # the pole are ill-conditioned -- e.g. exactly antiparallel rows give v = 0 exactly and the
+        # float32 code normalises rounding noise.  Outside the "numerically unambiguous" quantifier.
+        import math
+        G = A.gram(J)
+        P = A.pinv_exact(G)
+        d = [math.sqrt(float(G[i][i])) for i in range(len(J))]
+        v = [sum(float(P[i][j]) * d[j] for j in range(len(J))) for i in range(len(J))]
+        if abs(sum(v)) < 1e-3 * sum(abs(x) for x in v) or sum(abs(x) for x in v) * sum(d) < 1e-6:
+            return False
     rel = sv / sv[0]
     # every singular value is either clearly non-zero or exactly (numerically) zero
     return all(r > 1e-3 or r < 1e-13 for r in rel)
@@ -63,7 +89,7 @@ def gen_case(rng, name, mmax=5, nmax=6, cat=None, boundary=True):
         if name in ("UPGrad", "DualProj", "CAGrad") and boundary and rng.random() < 0.3:
             J = rescale_to_boundary(rng, J, p["norm_eps"])
             cat_ += "+boundary"
-        if not well_conditioned(J, name):
+        if not well_conditioned(J, name, p):
             continue
         if not (A.exactly_representable(J, "f32")):
             continue
